@@ -33,6 +33,7 @@ fn main() {
 		"http_method_gate" => probes::http_method_gate(),
 		"response_member_forms" => probes::response_member_forms(),
 		"subscription_id_reuse" => probes::subscription_id_reuse(),
+		"client_fragmented_reply_with_timers" => probes::client_fragmented_reply_with_timers(),
 		_ => json!({"probe": name, "error": "unknown probe"}),
 	};
 	println!("{}", res);
